@@ -116,7 +116,18 @@ func c09Content(res *explore.Result, content string, pi int, verbose bool) {
 			}
 			return fmt.Sprintf("(+%d,%q)", int(p)-base, b)
 		}
-		for _, ch := range []rune{'a', '_', 'é', '€', '\n', '1'} {
+		runeArgs := []rune{'a', '_', 'é', '€', '\n', '1'}
+		if cur < n {
+			// arguments forced to collide with the byte under the cursor in their low, second or widened byte:
+			// a rune that only shares some of its bits with the data must not match it
+			b := rune(rest[0])
+			for _, c := range []rune{b, 0x100 | b, 0x1F300 | b, b << 8, 0x80 | b, b &^ 0x80} {
+				if c != 0 && utf8.ValidRune(c) {
+					runeArgs = append(runeArgs, c)
+				}
+			}
+		}
+		for _, ch := range runeArgs {
 			enc := []byte(string(ch))
 			want := pr(pos, false)
 			if bytes.HasPrefix(rest, enc) {
